@@ -22,11 +22,11 @@ RULE = ("in-memory LASFiles with 0..6 generated items in ~Version (after VERS/WR
         "version {1.2, 2.0} x mnemonic_case {preserve, upper, lower}. distinct = distinct (section sizes, widest item, field "
         "classes, version, case); non-trivial = >= 2 generated items in some section Added later: second-generation round trips (read with each mnemonic_case, written again), fields of 120..400 characters, empty and blank-only lines and Unicode line separators inside ~Other, trailing empty lines, VERS at position 1, 2 or last of ~Version, legend words (MNEM/UNIT) and blank runs in values.")
 ASSUMPTIONS = [
-    "conformance clause of the statement is enforced by the generator (rv/gen/fields.py); NaN/None values and digit-underscore values (C08) are not generated",
+    "conformance clause of the statement is enforced by the generator (rv/gen/fields.py); NaN values and digit-underscore values (C08) are not generated; None values only in the dedicated grid cases",
     "allowed differences: STRT/STOP/STEP values, STRT/STOP/STEP and index-curve units, empty value with a unit -> 0",
 ]
 REQUIRED = ["write_read_pairs", "items_compared", "cases_widest_item_has_empty_value", "cases_blank_mnemonic", "cases_duplicate_mnemonic",
-            "version_1.2", "version_2.0", "case_upper", "case_lower", "case_preserve", "other_text_compared", "second_generation_round_trips", "cases_header_line_over_256_chars", "other_text_with_empty_lines", "other_text_with_unicode_line_separators", "cases_vers_not_first_in_version_section"]
+            "version_1.2", "version_2.0", "case_upper", "case_lower", "case_preserve", "other_text_compared", "second_generation_round_trips", "cases_header_line_over_256_chars", "other_text_with_empty_lines", "other_text_with_unicode_line_separators", "cases_vers_not_first_in_version_section", "cases_with_none_values"]
 SOFT_DEADLINE = {"quick": 90, "thorough": 1500}
 LEVEL_TEXT = ("Exploration: every item of every section is compared after a write->read cycle; the generators rotate which item "
               "determines the section's column widths, since one line's correctness depends on all other items of its section.")
@@ -157,6 +157,20 @@ def grid(tier):
                 yield {"spec": make_spec(rng, mode), "version": version}
 
 
+    # "empty fields" in their other form: a value of None (what update_start_stop_step() itself leaves in STRT/STOP/STEP of an
+    # object without rows), in every section
+    for rep in range(6 if tier == "quick" else 30):
+        for version in (1.2, 2.0):
+            k += 1
+            rng = random.Random("C03none%d" % k)
+            spec = make_spec(rng, MODES[rep % len(MODES)])
+            for name in ("Version", "Well", "Curves", "Parameter"):
+                for it in spec.get(name, [])[(1 if name == "Curves" else 0):]:
+                    if it[0].upper() not in ("VERS", "WRAP", "DLM", "STRT", "STOP", "STEP", "NULL") and rng.random() < 0.5:
+                        it[2] = None
+            yield {"spec": spec, "version": version, "none_values": True}
+
+
 def n_random(tier):
     return 5000 if tier == "quick" else 80000
 
@@ -224,6 +238,8 @@ def run_case(case, ctx):
     lasio = ctx.lasio
     spec, version = case["spec"], case["version"]
     las = build(lasio, spec)
+    if case.get("none_values"):
+        ctx.count("cases_with_none_values")
     snap = {}
     for name in ("Version", "Well", "Curves", "Parameter"):
         snap[name] = [(it.original_mnemonic, it.unit, it.value, it.descr) for it in las.sections[name]]
